@@ -162,6 +162,7 @@ class MempoolRun(IndexRun):
             jobs = [j for j in self.loop.pending_jobs() if self.is_bp_job(j)
                     and not (self.window and j is self.window['job'])]
             if jobs:
+                self.before_bp_job(jobs[0])
                 jobs[0].execute()
                 jobs[0].deliver()
                 continue
@@ -212,6 +213,9 @@ class MempoolRun(IndexRun):
 
     def no_progress_step(self, e):
         return {'ev': 'raised', 'exc': f'the mempool / block processor cannot be driven any further: {e}'[:200]}
+
+    def before_bp_job(self, job):
+        '''(a lab may let clients ask something right before a block-processor job runs)'''
 
     def check_split(self):
         '''(the full-stack lab stops its drivers here when a notification has been held at its first suspension point)'''
